@@ -8,11 +8,12 @@
    tool number; feed rate; distance, extrusion, feed modes; length units; plane; the three target
    temperatures -- each either "never mentioned, and the state has its documented default (as
    regenerated from /repo: Tables.defaults_ok)" or "the last word is the dp-rounding of the
-   state value".  The remembered move parameters (get_parameter) are checked by the
-   correspondence and the oracle only (not part of this theorem): partial in that respect. *)
+   state value".  The remembered move parameters (get_parameter) have their own reading of the
+   program, [param_lines] of model/InterpParams.v: the last k word of a G0/G1/G38.x/G92/G28 line
+   (C07_params below). *)
 From Coq Require Import ZArith QArith Bool List String.
-From GS Require Import model.Num model.Builder model.Interp proofs.Tables proofs.FlagsProofs
-  proofs.BoundsProofs proofs.MirrorProofs.
+From GS Require Import model.Num model.Builder model.Interp model.InterpParams proofs.Tables proofs.FlagsProofs
+  proofs.BoundsProofs proofs.MirrorProofs proofs.ParamProofs.
 Import ListNotations.
 Open Scope string_scope.
 
@@ -30,6 +31,55 @@ Theorem C07_step : forall dp s c m, cmd_ok3 c -> hooks_ok2 s -> Mirror dp s m ->
   Mirror dp (st_of (step1 dp s c)) (interp_lines m (lines_of (step1 dp s c))).
 Proof. exact step_mirror. Qed.
 Print Assumptions C07_step.
+
+(* "last value of every move parameter": for every letter k other than G/M/T/X/Y/Z, every history
+   and every prefix of it, what get_parameter(k) returns (None if never given), rounded as a line
+   would carry it, is the k word of the last emitted G0/G1/G38.x/G92/G28 line that has one -- the
+   values set by move hooks included (the line carries the hook's value and so does the state).
+   Words on other lines (a bare S or F line, fan / temperature S, halt parameters) do not count. *)
+Theorem C07_params : forall dp k cs1 cs2, reserved k = false -> Forall cmd_ok3 (cs1 ++ cs2) ->
+  clean_run dp init (cs1 ++ cs2) ->
+  param_lines k None (output dp init cs1) =
+  option_map (fun v => round_dp dp (xq v)) (cget k (cparams (final dp init cs1))).
+Proof. exact history_pm_prefix. Qed.
+Print Assumptions C07_params.
+
+(* one step, from ANY state whose remembered k is m *)
+Theorem C07_params_step : forall dp k s c m, cmd_ok3 c -> hooks_ok2 s -> reserved k = false ->
+  m = option_map (fun v => round_dp dp (xq v)) (cget k (cparams s)) -> clean s (step1 dp s c) ->
+  param_lines k m (lines_of (step1 dp s c)) =
+  option_map (fun v => round_dp dp (xq v)) (cget k (cparams (st_of (step1 dp s c)))).
+Proof. exact step_pm. Qed.
+Print Assumptions C07_params_step.
+
+(* calls other than moves / G92 / G28 / probes never touch the remembered parameters, even when
+   they are rejected half-way, and none of their lines is read as carrying move parameters *)
+Theorem C07_params_frame : forall dp s c, other_cmd c -> cmd_ok3 c ->
+  cparams (st_of (step1 dp s c)) = cparams s /\ Forall (fun l => carries_params l = false) (lines_of (step1 dp s c)).
+Proof. exact step_other. Qed.
+Print Assumptions C07_params_frame.
+
+(* non-vacuity of C07_params: F and E words on moves, a hook overriding F, a bare F line and a fan
+   S word in between (not move parameters), an E reset through G92, a rejected move *)
+Example C07_params_nonvacuous :
+  let cs := [Move Linear (mkreq (Some (Fin 1)) None None) [("F", Fin 600); ("E", Fin (3 # 2))];
+             SetFeed (Fin 50); SetFan (Fin 200) 0;
+             AddHook (HSet 1 "F" (Fin 1200));
+             Move Linear (mkreq None (Some (Fin 2)) None) [("F", Fin 700)];
+             Move Linear (mkreq None (Some PInf) None) [("E", Fin 9)];
+             SetAxis (mkreq None None None) [("E", Fin 0)];
+             Move Rapid (mkreq None None (Some (Fin 5))) []] in
+  Forall cmd_ok3 cs /\ clean_run 3 init cs /\
+  param_lines "F" None (output 3 init cs) = Some (1200 # 1)%Q /\
+  param_lines "E" None (output 3 init cs) = Some (0 # 1)%Q /\
+  param_lines "S" None (output 3 init cs) = None /\
+  cget "F" (cparams (final 3 init cs)) = Some (Fin 1200) /\
+  map (fun r => err_of r) (run 3 init cs) = [None; None; None; None; None; Some ValueErr; None; None].
+Proof.
+  split; [|split; [|vm_compute; repeat split]].
+  - repeat constructor; cbn; try discriminate; try reflexivity; try tauto; intros H; inversion H; inversion H0.
+  - vm_compute. repeat split; auto.
+Qed.
 
 (* non-vacuity: a history touching most fields, with two cleanly rejected calls *)
 Example C07_nonvacuous :
